@@ -112,6 +112,7 @@ def _one_run(case, fi, fault, res):
     os.makedirs(src)
     pre_consumption = fault["kind"] in ("missing", "lstat", "open", "arcname_rejected", "name_rejected")
     cls = {"fault": fault["kind"] + ("-" + fault["exc"] if fault.get("exc") else ""), "op": case["calls"][fi]["op"], "close": case["close"], "append": case["base"] is not None}
+    cls.update(case_class(case))
     if "child" in fault:
         cls["in_tree"] = True
 
@@ -422,3 +423,9 @@ def shrink_candidates(case):
         c = copy.deepcopy(case)
         c["target"] = "stream"
         yield c
+
+
+def case_class(case):
+    """Dependency flags (third-party codec libraries with listed defects), computed from the case, never from the failure."""
+    chains = [case.get("chain")] + ([case["base"].get("chain")] if case.get("base") else [])
+    return gen.dep_flags(chains, None, None)
